@@ -42,7 +42,7 @@ def mutate(rng, text):
     if not toks:
         return text + rng.choice(KEYWORDS)
     for _ in range(rng.choice([1, 1, 2, 3, 5])):
-        op = rng.randrange(9)
+        op = rng.randrange(11)
         i = rng.randrange(len(toks))
         if op == 0:
             del toks[i]
@@ -59,6 +59,18 @@ def mutate(rng, text):
             toks = toks[:i]  # truncate
         elif op == 6:
             toks.insert(i, rng.choice(["é", "́", "\U0001F600", "\x00", "﻿", "\r", "\t", " ", "ß"]))
+        elif op == 9:
+            # a number spelled differently
+            idx = [k for k, t in enumerate(toks) if t.isdigit()]
+            if idx:
+                toks[rng.choice(idx)] = rng.choice(NUMBERS)
+        elif op == 10:
+            # string contents: escapes next to multi-byte characters
+            idx = [k for k, t in enumerate(toks) if len(t) >= 2 and t[0] == '"' and t[-1] == '"']
+            if idx:
+                toks[rng.choice(idx)] = fea_string(rng)
+            else:
+                toks.insert(i, glyphs_number_expr(rng))
         elif op == 7:
             # brace / semicolon damage
             idx = [k for k, t in enumerate(toks) if t in "{};[]()<>'"]
@@ -112,6 +124,67 @@ def gen_program(rng):
             else:
                 body.append(f"ignore sub {g()} {g()}';")
         L.append(f"feature {tag} {{\n  " + "\n  ".join(body) + f"\n}} {tag};")
+    return "\n".join(L) + "\n"
+
+
+NUMBERS = ["12.5", "1.55", "0.5", "-0", "00012", ".5", "5.", "1.", "0x", "0x1F", "0xFFFFFFFFFF", "99999999999999999999", "-32769", "65536", "1.0.0", "1e5", "007.250", "3.14159"]
+STR_PARTS = ["A", "z", " ", "é", "ß", "\U0001F600", "\\00e9", "\\00E9", "\\000z", "\\zzzz", "\\e9", "\\0", "\\", "\\00", "\\d83d\\de00", "\\ffff", "\\0000", "́", "\t", "'", "\u00a0", "\u3000"]
+
+
+def fea_string(rng):
+    return '"' + "".join(rng.choice(STR_PARTS) for _ in range(rng.randint(0, 6))) + '"'
+
+
+def glyphs_number_expr(rng):
+    """Glyphs-app number values: `$name` and `${expr}` with idents, ints, floats, - / * + and odd spacing."""
+    if rng.random() < 0.3:
+        return "$" + rng.choice(["padding", "x", "a-b", "_v1", "x.y"])
+    atoms = ["x", "padding", "a-b", "x-12.5", "x/2", "12.5", "1.55", "3", "-4", "x-1", "y-0.5-z", "x--1", "1.", ".5", "x_1", "12.5-x", "0.25/x"]
+    ops = ["-", "/", "*", "+", " - ", " / ", " * ", " + ", " "]
+    parts = [rng.choice(atoms)]
+    for _ in range(rng.randint(0, 3)):
+        parts += [rng.choice(ops), rng.choice(atoms)]
+    return "${" + "".join(parts) + "}"
+
+
+def gen_rare(rng):
+    """Valid-looking use of the less travelled parts of the grammar: tables with strings and numbers of every
+    spelling, name records with escapes next to multi-byte characters, Glyphs-app number expressions, variable
+    values, include paths with unusual padding, glyph ranges with runs of hyphens."""
+    L = []
+    ws = ["", " ", "\t", "\u00a0", "\u3000", "\u2003", "\u2028", "\x0b", "\r"]
+    for _ in range(rng.randint(1, 5)):
+        k = rng.randrange(12)
+        num = lambda: rng.choice(NUMBERS + [str(rng.randint(-1000, 1000))] * 4)  # noqa
+        if k == 0:
+            recs = []
+            for _ in range(rng.randint(1, 3)):
+                ids = rng.choice(["1", "3 1 0x409", "1 0 0", "3", "256", num(), "1 1", "3 1"])
+                recs.append(f"  nameid {rng.choice(['1', '2', '9', '256', num()])} {ids if rng.random() < 0.5 else ''} {fea_string(rng)};")
+            L.append("table name {\n" + "\n".join(recs) + "\n} name;")
+        elif k == 1:
+            L.append(f"feature kern {{\n  pos a b {glyphs_number_expr(rng)};\n  pos [a b] c <{glyphs_number_expr(rng)} 0 {glyphs_number_expr(rng)} 0>;\n}} kern;")
+        elif k == 2:
+            L.append(f"feature kern {{\n  pos a b (wght={num()}:{num()} wght={num()}:{num()});\n  pos a c <0 0 (wght={num()}:{num()}) 0>;\n}} kern;")
+        elif k == 3:
+            L.append(f"table head {{ FontRevision {num()}; }} head;\ntable hhea {{ CaretOffset {num()}; Ascender {num()}; Descender {num()}; LineGap {num()}; }} hhea;")
+        elif k == 4:
+            L.append(f"table OS/2 {{\n  FSType {num()};\n  Panose {' '.join(num() for _ in range(rng.choice([10, 10, 9, 11])))};\n  UnicodeRange {num()} {num()};\n  CodePageRange {num()};\n  Vendor {fea_string(rng)};\n  XHeight {num()}; WeightClass {num()};\n}} OS/2;")
+        elif k == 5:
+            L.append(f"table STAT {{\n  ElidedFallbackName {{ name {fea_string(rng)}; name 3 1 0x411 {fea_string(rng)}; }};\n  DesignAxis wght {num()} {{ name {fea_string(rng)}; }};\n  AxisValue {{ location wght {num()}; name {fea_string(rng)}; flag ElidableAxisValueName; }};\n  AxisValue {{ location wght {num()} {num()} - {num()}; name {fea_string(rng)}; }};\n}} STAT;")
+        elif k == 6:
+            L.append(f"table GDEF {{\n  GlyphClassDef [a b], [f_i], [acutecomb], ;\n  Attach a {num()} {num()};\n  LigatureCaretByPos f_i {num()};\n  LigatureCaretByIndex f_f_i {num()} {num()};\n}} GDEF;")
+        elif k == 7:
+            L.append(f"table BASE {{\n  HorizAxis.BaseTagList ideo romn {rng.choice(['', 'hang', 'ideo-1', 'ab'])};\n  HorizAxis.BaseScriptList latn romn {num()} {num()}, cyrl romn {num()} {num()};\n}} BASE;")
+        elif k == 8:
+            L.append(f"feature ss01 {{\n  featureNames {{ name {fea_string(rng)}; name 3 1 0x409 {fea_string(rng)}; }};\n  sub a by a.alt;\n}} ss01;\nfeature cv01 {{\n  cvParameters {{ FeatUILabelNameID {{ name {fea_string(rng)}; }}; Character {num()}; Character 0x41; }};\n  sub a by a.alt;\n}} cv01;")
+        elif k == 9:
+            L.append(f"feature size {{\n  parameters {num()} {num()} {num()} {num()};\n  sizemenuname {fea_string(rng)};\n  sizemenuname 3 1 0x409 {fea_string(rng)};\n}} size;")
+        elif k == 10:
+            L.append(f"include({rng.choice(ws)}{rng.choice(['other.fea', 'a b.fea', 'é.fea', ''])}{rng.choice(ws)});")
+        else:
+            a, b = rng.choice(["a", "i", "a.sc", "a-b", "x"]), rng.choice(["d", "a.sc", "d.sc", "z", "a-b-c"])
+            L.append(f"@R = [{a}{rng.choice(['-', '--', ' - ', '---', ' -', '- '])}{b}];\nfeature test {{ sub [{a}{rng.choice(['-', '--'])}{b}] by a; }} test;")
     return "\n".join(L) + "\n"
 
 
@@ -185,7 +258,14 @@ def make_inputs(chk, tier):
             if len(text) > 6000:
                 continue
             cases.append({"kind": "mutation", "files": {"root.fea": mutate(rng, text)}, "glyphs": GLYPHS if rng.random() < 0.5 else None, "origin": name})
-        elif r < 0.75:
+        elif r < 0.64:
+            p = gen_rare(rng)
+            kind = "rare-constructs"
+            if rng.random() < 0.4:
+                p = mutate(rng, p)
+                kind = "rare-constructs+mutation"
+            cases.append({"kind": kind, "files": {"root.fea": p}, "glyphs": GLYPHS if rng.random() < 0.8 else None})
+        elif r < 0.78:
             p = gen_program(rng)
             if rng.random() < 0.5:
                 p = mutate(rng, p)
